@@ -254,6 +254,26 @@ def sparse_corr(res):
             fail(res, 'latent correlation differs from the prescribed one for normal marginals', case, np.array(nat.rhoZ).tolist())
 
 
+def pdf_tails(res):
+    """unit-variance normal marginals at identity correlation (where the recorded covariance finding is invisible): the joint
+    pdf is the product of the marginal densities however small that product is"""
+    core.import_impl()
+    import numpy as np
+    from scipy import stats
+    from ffpack import rpm
+    for d, z in ((1, 6.5), (1, -7.0), (4, 3.5), (10, 1.5), (8, -2.0)):
+        dists = [stats.norm(float(k), 1.0) for k in range(d)]
+        x = [float(k) + z for k in range(d)]
+        case = {'marginals': 'norm(k, 1), k < %d' % d, 'corr': 'identity', 'x': x}
+        res.evaluations += 1
+        res.nontrivial.add(json.dumps(case))
+        res.stat('pdf_small_density')
+        got = float(rpm.NatafTransformation(dists, np.eye(d).tolist()).pdf(x))
+        want = float(np.prod([ds.pdf(v) for ds, v in zip(dists, x)]))
+        if not math.isclose(got, want, rel_tol=1e-8):
+            fail(res, 'pdf does not factor into the marginals at identity correlation (small densities)', case, [got, want])
+
+
 def fallback_search(res):
     """the last-resort root search: make the first two fsolve calls report failure (fault injected from outside)"""
     core.import_impl()
@@ -291,6 +311,7 @@ def run(tier, seed):
     explore(res, random.Random(seed), n)
     same_family(res, random.Random(seed + 1))
     sparse_corr(res)
+    pdf_tails(res)
     fallback_search(res)
     res.traces = res.evaluations
     res.disagreements_checked = res.evaluations
